@@ -23,7 +23,7 @@ Definition Q (b : Z) (s s' : st) : Prop := R s s' /\ wk s <= wk s' /\ psi s' <= 
 
 Lemma P_mono : forall s s', R s s' -> (P s' <= P s)%nat.
 Proof.
-  intros s s' HR. pose proof (stuck_R s s' HR) as Hs. destruct HR as [H1 [H2 _]]. unfold P.
+  intros s s' HR. pose proof (stuck_R s s' HR) as Hs. destruct HR as [[H1 [H2 _]] _]. unfold P.
   destruct (stuck s) eqn:E.
   - rewrite (Hs eq_refl). lia.
   - destruct (stuck s'); lia.
@@ -54,7 +54,7 @@ Proof. intros s H. unfold P in H. destruct (stuck s); [reflexivity|lia]. Qed.
 
 (* ---- state updates *)
 Ltac qof := intros; apply Q_of; [auto using R_set_error, R_force_error, R_add_ref, R_add_class, R_add_alloc, R_add_excess,
-  R_add_steps, R_set_corrupt, R_set_simple, R_reset_refs, R_spin_by, R_skip_by, R_charge, R_add_rsv|unfold wk; cbn; lia|unfold wk; cbn; lia|unfold sx; cbn; lia].
+  R_add_steps, R_set_corrupt, R_set_simple, R_reset_refs, R_skip_by, R_charge, R_add_rsv|unfold wk; cbn; lia|unfold wk; cbn; lia|unfold sx; cbn; lia].
 
 Lemma Q_set_error : forall s k, Q 0 s (set_error s k). Proof. qof. Qed.
 Lemma Q_force_error : forall s k, Q 0 s (force_error s k). Proof. qof. Qed.
@@ -78,7 +78,8 @@ Lemma Q_add_steps1 : forall s, Q 1 s (add_steps s 1). Proof. qof. Qed.
 Lemma Q_set_corrupt : forall s, Q 0 s (set_corrupt s). Proof. qof. Qed.
 Lemma Q_set_simple : forall s b, Q 0 s (set_simple s b). Proof. qof. Qed.
 Lemma Q_reset_refs : forall s, Q 0 s (reset_refs s). Proof. qof. Qed.
-Lemma Q_spin_by : forall s n p, Q 0 s (spin_by s n p). Proof. qof. Qed.
+Lemma Q_spin_by : forall s n p, lstop s = false -> Q 0 s (spin_by s n p).
+Proof. intros. apply Q_of; [apply R_spin_by; assumption|unfold wk; cbn; lia|unfold wk; cbn; lia|unfold sx; cbn; lia]. Qed.
 
 Lemma wk_set_rest : forall s r e d, wk (set_rest s r e d) = wk s + Z.of_N d.
 Proof. intros. unfold wk. cbn. lia. Qed.
@@ -175,7 +176,7 @@ Ltac solveQ :=
   | |- Q _ ?s (set_corrupt ?x) => eapply (Q_trans _ _ s x); [solveQ|apply Q_set_corrupt]
   | |- Q _ ?s (set_simple ?x _) => eapply (Q_trans _ _ s x); [solveQ|apply Q_set_simple]
   | |- Q _ ?s (reset_refs ?x) => eapply (Q_trans _ _ s x); [solveQ|apply Q_reset_refs]
-  | |- Q _ ?s (spin_by ?x _ _) => eapply (Q_trans _ _ s x); [solveQ|apply Q_spin_by]
+  | |- Q _ ?s (spin_by ?x _ _) => eapply (Q_trans _ _ s x); [solveQ|apply Q_spin_by; eauto using stuck_not_stopping]
   | |- Q _ ?s (skip1 ?x) => eapply (Q_trans _ _ s x); [solveQ|apply Q_skip1]
   | |- Q _ ?s (read_time ?x) => eapply (Q_trans _ _ s x); [solveQ|apply Q_read_time]
   | |- Q _ ?s (read_datetime ?x) => eapply (Q_trans _ _ s x); [solveQ|apply Q_read_datetime]
@@ -235,7 +236,7 @@ Proof.
     destruct (fits (b :: w) n) eqn:Ef; [cbn [allQ]; apply Hs|].
     apply fits_false in Ef.
     assert (H0 : forall ex, Q 1 s (short_by s (merge (err s) (Some EEOF)) ex 0 1)) by (intros; apply Q_short_by; lia).
-    destruct (fx_next fx); [cbn [allQ]; apply H0|].
+    destruct (fx_next fx); [cbn [allQ]; apply Q_short_by; rewrite E; lia|].
     destruct (max_alloc <? Z.to_N n)%N; cbn [allQ]; [split; [leafQ|apply H0]|].
     apply Q_short_by. rewrite E. lia.
 Qed.
@@ -248,7 +249,7 @@ Proof.
   assert (H0 : forall ex, Q 1 s (short_by s (merge (err s) (Some EEOF)) ex 0 3)) by (intros; apply Q_short_by; lia).
   destruct (str_scan _ false _ _ _); try leafAQ.
   destruct ((off <? len (b :: w))%nat || _); [cbn [allQ]; apply Hs|].
-  destruct (fx_str fx); [cbn [allQ]; apply H0|].
+  destruct (fx_str fx); [cbn [allQ]; apply Q_short_by; rewrite E; lia|].
   destruct (wrap_int (n0 * 3) <? 0)%Z; [cbn [allQ]; split; [leafQ|apply H0]|].
   destruct (max_alloc <? _)%N; cbn [allQ]; [split; [leafQ|apply H0]|].
   apply Q_short_by. lia.
@@ -399,13 +400,12 @@ Qed.
 Lemma allQ_loop' : forall (body : st -> out unit) per p0,
   (forall x, (P x <= p0)%nat -> stuck x = false ->
      allQ 0 x (body x) /\ allLeaf (fun s' => (P s' < P x)%nat) (body x)) ->
-  forall k n s, (P s <= k)%nat -> (P s <= p0)%nat -> allQ 0 s (loop fx k body 0 per n s).
+  forall k n s, (P s <= k)%nat -> (P s <= p0)%nat -> allQ 0 s (loop k body 0 per n s).
 Proof.
   intros body per p0 Hb. induction k as [|k IH]; intros n s Hk Hp; cbn [loop].
-  - destruct (n <=? 0)%Z; [leafAQ|]. destruct (stuck s) eqn:E; [leafAQ|].
+  - destruct (n <=? 0)%Z; [leafAQ|]. destruct (lstop s && has_err s) eqn:E1; [leafAQ|]. destruct (stuck s) eqn:E; [cbn [allQ]; eapply Q_le; [apply Q_spin_by; eapply stuck_not_stopping; eauto|lia]|].
     rewrite (P0_stuck s) in E by lia. discriminate.
-  - destruct (n <=? 0)%Z; [leafAQ|]. destruct (stuck s) eqn:E; [leafAQ|].
-    destruct (fx_loop fx && has_err s); [leafAQ|].
+  - destruct (n <=? 0)%Z; [leafAQ|]. destruct (lstop s && has_err s) eqn:E1; [leafAQ|]. destruct (stuck s) eqn:E; [cbn [allQ]; eapply Q_le; [apply Q_spin_by; eapply stuck_not_stopping; eauto|lia]|].
     change (charge s 0) with s.
     destruct (Hb s Hp E) as [H1 H2].
     replace 0 with (0 + 0) by lia. eapply allQ_bnd_leaf; [exact H1|exact H2| |lia].
@@ -414,13 +414,12 @@ Qed.
 (* any slot: the body more than pays for the charge *)
 Lemma allQ_loop : forall (body : st -> out unit) slot per p0,
   (forall x, (P x <= p0)%nat -> stuck x = false -> allQ (-2) x (body x)) ->
-  forall k n s, (P s <= k)%nat -> (P s <= p0)%nat -> allQ 0 s (loop fx k body slot per n s).
+  forall k n s, (P s <= k)%nat -> (P s <= p0)%nat -> allQ 0 s (loop k body slot per n s).
 Proof.
   intros body slot per p0 Hb. induction k as [|k IH]; intros n s Hk Hp; cbn [loop].
-  - destruct (n <=? 0)%Z; [leafAQ|]. destruct (stuck s) eqn:E; [leafAQ|].
+  - destruct (n <=? 0)%Z; [leafAQ|]. destruct (lstop s && has_err s) eqn:E1; [leafAQ|]. destruct (stuck s) eqn:E; [cbn [allQ]; eapply Q_le; [apply Q_spin_by; eapply stuck_not_stopping; eauto|lia]|].
     rewrite (P0_stuck s) in E by lia. discriminate.
-  - destruct (n <=? 0)%Z; [leafAQ|]. destruct (stuck s) eqn:E; [leafAQ|].
-    destruct (fx_loop fx && has_err s); [leafAQ|].
+  - destruct (n <=? 0)%Z; [leafAQ|]. destruct (lstop s && has_err s) eqn:E1; [leafAQ|]. destruct (stuck s) eqn:E; [cbn [allQ]; eapply Q_le; [apply Q_spin_by; eapply stuck_not_stopping; eauto|lia]|].
     pose proof (Q_charge s slot) as Hc. pose proof (Q_P _ _ _ Hc) as HPc.
     assert (Hbody : allQ (-1) s (body (charge s slot))).
     { replace (-1) with (1 + -2) by lia. eapply allQ_weaken; [exact Hc|]. apply Hb; [lia|rewrite stuck_charge; exact E]. }
@@ -432,20 +431,20 @@ Qed.
 
 Lemma allQ_iter_names0 : forall (body : bytes -> st -> out unit) p0,
   (forall nm x, (P x <= p0)%nat -> stuck x = false -> allQ 0 x (body nm x)) ->
-  forall l s, (P s <= p0)%nat -> allQ 0 s (iter_names fx body 0 l s).
+  forall l s, (P s <= p0)%nat -> allQ 0 s (iter_names body 0 l s).
 Proof.
   intros body p0 Hb. induction l as [|nm l IH]; intros s Hp; cbn [iter_names]; [leafAQ|].
-  destruct (stuck s) eqn:E; [leafAQ|]. destruct (fx_loop fx && has_err s); [leafAQ|].
+  destruct (lstop s && has_err s) eqn:E1; [leafAQ|]. destruct (stuck s) eqn:E; [cbn [allQ]; eapply Q_le; [apply Q_spin_by; eapply stuck_not_stopping; eauto|lia]|].
   change (charge s 0) with s.
   replace 0 with (0 + 0) by lia. eapply allQ_bnd_Q; [apply Hb; auto| |lia].
   intros a x Hq. apply IH. pose proof (Q_P _ _ _ Hq). lia.
 Qed.
 Lemma allQ_iter_names : forall (body : bytes -> st -> out unit) slot p0,
   (forall nm x, (P x <= p0)%nat -> stuck x = false -> allQ (-2) x (body nm x)) ->
-  forall l s, (P s <= p0)%nat -> allQ 0 s (iter_names fx body slot l s).
+  forall l s, (P s <= p0)%nat -> allQ 0 s (iter_names body slot l s).
 Proof.
   intros body slot p0 Hb. induction l as [|nm l IH]; intros s Hp; cbn [iter_names]; [leafAQ|].
-  destruct (stuck s) eqn:E; [leafAQ|]. destruct (fx_loop fx && has_err s); [leafAQ|].
+  destruct (lstop s && has_err s) eqn:E1; [leafAQ|]. destruct (stuck s) eqn:E; [cbn [allQ]; eapply Q_le; [apply Q_spin_by; eapply stuck_not_stopping; eauto|lia]|].
   pose proof (Q_charge s slot) as Hc. pose proof (Q_P _ _ _ Hc) as HPc.
   assert (Hbody : allQ (-1) s (body nm (charge s slot))).
   { replace (-1) with (1 + -2) by lia. eapply allQ_weaken; [exact Hc|]. apply Hb; [lia|rewrite stuck_charge; exact E]. }
@@ -456,7 +455,7 @@ Qed.
 Lemma allQ_over_names' : forall lf (body : bytes -> st -> out unit) c p0, (p0 <= lf)%nat ->
   (forall nm x, (P x <= p0)%nat -> stuck x = false ->
      allQ 0 x (body nm x) /\ allLeaf (fun s' => (P s' < P x)%nat) (body nm x)) ->
-  forall s, (P s <= p0)%nat -> allQ 0 s (over_names fx lf body 0 c s).
+  forall s, (P s <= p0)%nat -> allQ 0 s (over_names lf body 0 c s).
 Proof.
   intros lf body c p0 Hlf Hb s Hp. unfold over_names.
   replace 0 with (0 + 0) by lia. eapply allQ_bnd_Q; [apply (allQ_iter_names0 _ p0); auto| |lia].
@@ -465,7 +464,7 @@ Proof.
 Qed.
 Lemma allQ_over_names : forall lf (body : bytes -> st -> out unit) slot c p0, (p0 <= lf)%nat ->
   (forall nm x, (P x <= p0)%nat -> stuck x = false -> allQ (-2) x (body nm x)) ->
-  forall s, (P s <= p0)%nat -> allQ 0 s (over_names fx lf body slot c s).
+  forall s, (P s <= p0)%nat -> allQ 0 s (over_names lf body slot c s).
 Proof.
   intros lf body slot c p0 Hlf Hb s Hp. unfold over_names.
   replace 0 with (0 + 0) by lia. eapply allQ_bnd_Q; [apply (allQ_iter_names _ _ p0); auto| |lia].
@@ -515,13 +514,12 @@ Ltac stepI :=
   end.
 Ltac solveI := repeat stepI.
 
-Lemma allQ_names_loop : forall k n acc s, (P s <= k)%nat -> (P s <= p0)%nat -> allQ 0 s (names_loop fx rv k n acc s).
+Lemma allQ_names_loop : forall k n acc s, (P s <= k)%nat -> (P s <= p0)%nat -> allQ 0 s (names_loop rv k n acc s).
 Proof.
   induction k as [|k IH]; intros n acc s Hk Hp; cbn [names_loop].
-  - destruct (n <=? 0)%Z; [leafAQ|]. destruct (stuck s) eqn:E; [leafAQ|].
+  - destruct (n <=? 0)%Z; [leafAQ|]. destruct (lstop s && has_err s) eqn:E1; [leafAQ|]. destruct (stuck s) eqn:E; [cbn [allQ]; eapply Q_le; [apply Q_spin_by; eapply stuck_not_stopping; eauto|lia]|].
     rewrite (P0_stuck s) in E by lia. discriminate.
-  - destruct (n <=? 0)%Z; [leafAQ|]. destruct (stuck s) eqn:E; [leafAQ|].
-    destruct (fx_loop fx && has_err s); [leafAQ|].
+  - destruct (n <=? 0)%Z; [leafAQ|]. destruct (lstop s && has_err s) eqn:E1; [leafAQ|]. destruct (stuck s) eqn:E; [cbn [allQ]; eapply Q_le; [apply Q_spin_by; eapply stuck_not_stopping; eauto|lia]|].
     pose proof (Q_add_alloc s 16) as Hc. pose proof (Q_P _ _ _ Hc) as HPc.
     assert (Hbody : allQ (-19) s (rv SString (add_alloc s 16))).
     { replace (-19) with (1 + -20) by lia. eapply allQ_weaken; [exact Hc|]. apply HrvL; [lia|exact E]. }
@@ -532,13 +530,12 @@ Proof.
 Qed.
 
 Lemma allQ_map_loop : forall ks vs per k n acc s, (P s <= k)%nat -> (P s <= p0)%nat ->
-  allQ 0 s (map_loop fx rv k ks vs per n acc s).
+  allQ 0 s (map_loop rv k ks vs per n acc s).
 Proof.
   intros ks vs per. induction k as [|k IH]; intros n acc s Hk Hp; cbn [map_loop].
-  - destruct (n <=? 0)%Z; [leafAQ|]. destruct (stuck s) eqn:E; [leafAQ|].
+  - destruct (n <=? 0)%Z; [leafAQ|]. destruct (lstop s && has_err s) eqn:E1; [leafAQ|]. destruct (stuck s) eqn:E; [cbn [allQ]; eapply Q_le; [apply Q_spin_by; eapply stuck_not_stopping; eauto|lia]|].
     rewrite (P0_stuck s) in E by lia. discriminate.
-  - destruct (n <=? 0)%Z; [leafAQ|]. destruct (stuck s) eqn:E; [leafAQ|].
-    destruct (fx_loop fx && has_err s); [leafAQ|].
+  - destruct (n <=? 0)%Z; [leafAQ|]. destruct (lstop s && has_err s) eqn:E1; [leafAQ|]. destruct (stuck s) eqn:E; [cbn [allQ]; eapply Q_le; [apply Q_spin_by; eapply stuck_not_stopping; eauto|lia]|].
     pose proof (Q_add_alloc s (map_entry ks vs)) as Hc. pose proof (Q_P _ _ _ Hc) as HPc.
     assert (Hkey : allQ (-19) s (rv ks (add_alloc s (map_entry ks vs)))).
     { replace (-19) with (1 + -20) by lia. eapply allQ_weaken; [exact Hc|]. apply HrvL; [lia|exact E]. }
@@ -547,7 +544,7 @@ Proof.
     assert (Hx : (P x < P s)%nat) by (apply (Q_neg_P _ _ _ Hq); lia).
     replace 19 with (1 + 18) by lia. eapply allQ_bnd_Q; [apply Hrv; lia| |lia].
     intros vv y Hq2. pose proof (Q_P _ _ _ Hq2) as Hy.
-    assert (Hgo : forall acc', allQ 18 y (map_loop fx rv k ks vs per (n - 1) acc' y)).
+    assert (Hgo : forall acc', allQ 18 y (map_loop rv k ks vs per (n - 1) acc' y)).
     { intros acc'. eapply allQ_le; [apply IH; lia|lia]. }
     destruct ks; try apply Hgo.
     destruct (hashable kv); [apply Hgo|].
@@ -560,7 +557,7 @@ Qed.
 Lemma allQ_read_struct : forall sh s, (P s <= p0)%nat -> allQ 20 s (read_struct registry fx rv lf sh s).
 Proof.
   intros sh s Hp. unfold read_struct. solveI.
-  match goal with |- allQ _ ?s0 (bnd (names_loop _ _ _ _ _ ?x) _) =>
+  match goal with |- allQ _ ?s0 (bnd (names_loop _ _ _ _ ?x) _) =>
     assert (Hx : (P x <= p0)%nat) by pbound;
     eapply allQ_bnd_ex; [eapply (allQ_weaken _ _ _ _ s0 x); [solveQ|apply allQ_names_loop; [lia|exact Hx]]|intros ? ? ?|num] end.
   solveI.
@@ -578,11 +575,11 @@ Proof. intros f nm s Hp. unfold decode_field. solveI. Qed.
 Lemma allQ_decode_field_live : forall f nm s, (P s <= p0)%nat -> stuck s = false -> allQ (-20) s (decode_field rv f nm s).
 Proof. intros f nm s Hp Hl. unfold decode_field. solveI. Qed.
 
-Ltac namesQ := match goal with |- allQ _ ?s0 (bnd (over_names _ _ _ _ _ ?x) _) =>
+Ltac namesQ := match goal with |- allQ _ ?s0 (bnd (over_names _ _ _ _ ?x) _) =>
   assert ((P x <= p0)%nat) by pbound;
   eapply allQ_bnd_ex; [eapply (allQ_weaken _ _ _ _ s0 x); [solveQ|apply (allQ_over_names lf _ _ _ p0 Hlf); [intros ? ? ? ?|assumption]]|intros ? ? ?|num] end.
 
-Lemma allQ_read_object : forall s, (P s <= p0)%nat -> allQ 20 s (read_object fx rv lf s).
+Lemma allQ_read_object : forall s, (P s <= p0)%nat -> allQ 20 s (read_object rv lf s).
 Proof.
   intros s Hp. unfold read_object. replace 20 with (1 + 19) by lia. apply allQ_get_class; [lia| |exact Hp].
   intros c x Hx. solveI; namesQ; solveI.
@@ -607,16 +604,16 @@ Ltac stepJ :=
   match goal with
   | |- allQ _ ?s0 (bnd (read_struct _ _ _ _ _ ?x) _) =>
       eapply allQ_bnd_ex; [eapply (allQ_weaken _ _ _ _ s0 x); [solveQ|apply allQ_read_struct; pbound]|intros ? ? ?|num]
-  | |- allQ _ ?s0 (read_object _ _ _ ?x) =>
+  | |- allQ _ ?s0 (read_object _ _ ?x) =>
       eapply allQ_le; [eapply (allQ_weaken _ _ _ _ s0 x); [solveQ|apply allQ_read_object; pbound]|num]
   | |- allQ _ ?s0 (default_decode _ _ _ _ _ _ _ _ ?x) =>
       eapply allQ_le; [eapply (allQ_weaken _ _ _ _ s0 x); [solveQ|apply allQ_default_decode; [pbound|assumption]]|num]
   | |- allQ _ ?s0 (decode_error _ _ ?x) =>
       eapply allQ_le; [eapply (allQ_weaken _ _ _ _ s0 x); [solveQ|apply allQ_decode_error; [pbound|assumption]]|num]
-  | |- allQ _ ?s0 (bnd (loop _ _ _ _ _ _ ?x) _) =>
+  | |- allQ _ ?s0 (bnd (loop _ _ _ _ _ ?x) _) =>
       assert ((P x <= p0)%nat) by pbound;
       eapply allQ_bnd_ex; [eapply (allQ_weaken _ _ _ _ s0 x); [solveQ|apply (allQ_loop _ _ _ p0); [intros ? ? ?|lia|assumption]]|intros ? ? ?|num]
-  | |- allQ _ _ (bnd (over_names _ _ _ _ _ _) _) => namesQ
+  | |- allQ _ _ (bnd (over_names _ _ _ _ _) _) => namesQ
   | _ => stepI
   end.
 Ltac solveJ := repeat stepJ.
@@ -632,7 +629,7 @@ Proof. intros s Hp. unfold list_iface. solveJ. Qed.
 Lemma allQ_decode_map : forall ks vs s, (P s <= p0)%nat -> allQ 20 s (decode_map fx rv lf ks vs s).
 Proof.
   intros ks vs s Hp. unfold decode_map. solveJ.
-  all: match goal with |- allQ _ ?s0 (bnd (map_loop _ _ _ _ _ _ _ _ ?x) _) =>
+  all: match goal with |- allQ _ ?s0 (bnd (map_loop _ _ _ _ _ _ _ ?x) _) =>
     assert (Hx : (P x <= p0)%nat) by pbound;
     eapply allQ_bnd_ex; [eapply (allQ_weaken _ _ _ _ s0 x); [solveQ|apply allQ_map_loop; [lia|exact Hx]]|intros ? ? ?|num] end.
   all: solveJ.
@@ -721,12 +718,12 @@ Proof.
   assert (Hbody : allQ 10 x
     match ctype c with
     | Some t =>
-        bnd (over_names fx lf (fun nm x0 => match flookup nm (struct_fields t) with
+        bnd (over_names lf (fun nm x0 => match flookup nm (struct_fields t) with
                                             | Some fs => unit_of (rv fs (add_alloc (add_alloc x0 (map_entry ks vs)) (size fs)))
                                             | None => RHaz HObjMapField x0 (unit_of (rv SIface (add_alloc x0 (map_entry ks vs))))
                                             end) 0 c s2)
           (fun _ s3 => ROk (AOther false) (skip1 s3))
-    | None => bnd (over_names fx lf (fun _ x0 => unit_of (rv SIface x0)) (map_entry ks vs) c s2)
+    | None => bnd (over_names lf (fun _ x0 => unit_of (rv SIface x0)) (map_entry ks vs) c s2)
                 (fun _ s3 => ROk (AOther false) (skip1 s3))
     end).
   { destruct (ctype c).
@@ -824,6 +821,9 @@ End Cost.
 Lemma P_init : forall bs smp, P (init bs smp) = S (len bs).
 Proof. intros. unfold P, stuck, has_err, init. cbn. destruct bs; cbn; lia. Qed.
 
+Lemma P_start : forall fx bs smp, P (start fx bs smp) = S (len bs).
+Proof. intros. exact (P_init bs smp). Qed.
+
 Lemma allQ_all_states : forall (A : Type) (r : out A) b s0, allQ b s0 r -> all_states (Q b s0) r.
 Proof. intros A r. induction r; intros b s0 H; cbn in *; auto. destruct H. split; auto. Qed.
 
@@ -834,14 +834,14 @@ Proof.
 Qed.
 
 (* what a state within budget b of the initial state satisfies *)
-Lemma Q_init_bounds : forall b bs smp s', Q b (init bs smp) s' ->
+Lemma Q_init_bounds : forall fx b bs smp s', Q b (start fx bs smp) s' ->
   (Z.of_N (steps s') <= K * (Z.of_nat (len bs) + 1) + b + Z.of_N (spin s')) /\
   (spin s' <= excess s')%N.
 Proof.
-  intros b bs smp s' [HR [Hw [Hpsi Hsx]]].
-  assert (E1 : psi (init bs smp) = K * Z.of_nat (S (len bs))).
-  { unfold psi. rewrite P_init. unfold wk, init. cbn [steps spin]. lia. }
-  assert (E2 : sx (init bs smp) = 0) by reflexivity.
+  intros fx b bs smp s' [HR [Hw [Hpsi Hsx]]].
+  assert (E1 : psi (start fx bs smp) = K * Z.of_nat (S (len bs))).
+  { unfold psi. rewrite P_start. unfold wk, start, set_lstop, init. cbn [steps spin]. lia. }
+  assert (E2 : sx (start fx bs smp) = 0) by reflexivity.
   rewrite E1 in Hpsi. rewrite E2 in Hsx. unfold psi, wk in Hpsi. unfold sx in Hsx.
   assert (0 <= K * Z.of_nat (P s')) by (unfold K; lia).
   split; [|lia]. unfold K in *. lia.
@@ -886,10 +886,9 @@ Lemma allQ_args_loop : forall m k i n s, (P s <= k)%nat -> (P s <= p0)%nat ->
   allQ 0 s (args_loop orc registry fx fuel k m i n s).
 Proof.
   intros m. induction k as [|k IH]; intros i n s Hk Hp; cbn [args_loop].
-  - destruct (n <=? 0)%Z; [leafAQ|]. destruct (stuck s) eqn:E; [leafAQ|].
+  - destruct (n <=? 0)%Z; [leafAQ|]. destruct (lstop s && has_err s) eqn:E1; [leafAQ|]. destruct (stuck s) eqn:E; [cbn [allQ]; eapply Q_le; [apply Q_spin_by; eapply stuck_not_stopping; eauto|lia]|].
     rewrite (P0_stuck s) in E by lia. discriminate.
-  - destruct (n <=? 0)%Z; [leafAQ|]. destruct (stuck s) eqn:E; [leafAQ|].
-    destruct (fx_loop fx && has_err s); [leafAQ|].
+  - destruct (n <=? 0)%Z; [leafAQ|]. destruct (lstop s && has_err s) eqn:E1; [leafAQ|]. destruct (stuck s) eqn:E; [cbn [allQ]; eapply Q_le; [apply Q_spin_by; eapply stuck_not_stopping; eauto|lia]|].
     set (x := add_alloc (add_alloc s 32) _).
     assert (Hx : Q 2 s x) by (unfold x; eapply Q_le; [solveQ|lia]).
     pose proof (Q_P _ _ _ Hx) as HPx.
@@ -921,11 +920,11 @@ Proof.
 Qed.
 
 Lemma allQ_service_decode : forall ms missing bs, (S (len bs) <= p0)%nat ->
-  allQ (3 * c0 + 20) (init bs false) (service_decode orc registry fx fuel ms missing bs).
+  allQ (3 * c0 + 20) (start fx bs false) (service_decode orc registry fx fuel ms missing bs).
 Proof.
   intros ms missing bs Hp. unfold service_decode. destruct bs as [|b0 bs']; [leafAQ|].
   set (bs := b0 :: bs') in *.
-  assert (Hp0 : (P (init bs false) <= p0)%nat) by (rewrite P_init; exact Hp).
+  assert (Hp0 : (P (start fx bs false) <= p0)%nat) by (rewrite P_start; exact Hp).
   eapply allQ_le; [apply (allQ_read_header _ _ (3 * c0 + 12)); [unfold c0; lia|exact Hp0|]|lia].
   intros t h x Hx. destruct (tag_is t "C"); [|destruct (tag_is t "z"); leafAQ].
   apply allQ_header_simple. intros smp.
@@ -953,10 +952,10 @@ Proof.
 Qed.
 
 Lemma allQ_client_decode : forall rts bs, (S (len bs) <= p0)%nat ->
-  allQ (3 * c0 + 30 + 2 * Z.of_nat (len rts)) (init bs false) (client_decode orc registry fx fuel rts bs).
+  allQ (3 * c0 + 30 + 2 * Z.of_nat (len rts)) (start fx bs false) (client_decode orc registry fx fuel rts bs).
 Proof.
   intros rts bs Hp. unfold client_decode.
-  assert (Hp0 : (P (init bs false) <= p0)%nat) by (rewrite P_init; exact Hp).
+  assert (Hp0 : (P (start fx bs false) <= p0)%nat) by (rewrite P_start; exact Hp).
   eapply allQ_le; [apply (allQ_read_header _ _ (3 * c0 + 22 + 2 * Z.of_nat (len rts))); [unfold c0; lia|exact Hp0|]|lia].
   intros t h x Hx. destruct (tag_is t "R").
   - apply allQ_header_simple. intros smp.
@@ -1004,10 +1003,10 @@ Theorem unmarshal_bounds : forall orc reg fx fuel bs smp sh, enough fuel bs ->
   forall chk, interp chk (unmarshal orc reg fx fuel bs smp sh) <> VFuel.
 Proof.
   intros orc reg fx fuel bs smp sh Hf. unfold unmarshal.
-  assert (H : allQ 1 (init bs smp) (dec_val orc reg fx fuel sh (init bs smp))).
-  { apply allQ_dec_val. rewrite P_init. exact Hf. }
+  assert (H : allQ 1 (start fx bs smp) (dec_val orc reg fx fuel sh (start fx bs smp))).
+  { apply allQ_dec_val. rewrite P_start. exact Hf. }
   split.
-  - eapply all_states_imp; [|apply allQ_all_states; exact H]. intros s Hq. apply (Q_init_bounds _ _ _ _ Hq).
+  - eapply all_states_imp; [|apply allQ_all_states; exact H]. intros s Hq. apply (Q_init_bounds _ _ _ _ _ Hq).
   - intros chk. eapply allQ_no_fuel; exact H.
 Qed.
 
@@ -1016,10 +1015,10 @@ Theorem service_bounds : forall orc reg fx fuel ms missing bs, enough fuel bs ->
   forall chk, interp chk (service_decode orc reg fx fuel ms missing bs) <> VFuel.
 Proof.
   intros orc reg fx fuel ms missing bs Hf.
-  assert (H : allQ (3 * c0 + 20) (init bs false) (service_decode orc reg fx fuel ms missing bs)).
+  assert (H : allQ (3 * c0 + 20) (start fx bs false) (service_decode orc reg fx fuel ms missing bs)).
   { apply (allQ_service_decode orc reg fx fuel (S (len bs))); [exact Hf|lia]. }
   split.
-  - eapply all_states_imp; [|apply allQ_all_states; exact H]. intros s Hq. apply (Q_init_bounds _ _ _ _ Hq).
+  - eapply all_states_imp; [|apply allQ_all_states; exact H]. intros s Hq. apply (Q_init_bounds _ _ _ _ _ Hq).
   - intros chk. eapply allQ_no_fuel; exact H.
 Qed.
 
@@ -1028,10 +1027,10 @@ Theorem client_bounds : forall orc reg fx fuel rts bs, enough fuel bs ->
   forall chk, interp chk (client_decode orc reg fx fuel rts bs) <> VFuel.
 Proof.
   intros orc reg fx fuel rts bs Hf.
-  assert (H : allQ (3 * c0 + 30 + 2 * Z.of_nat (len rts)) (init bs false) (client_decode orc reg fx fuel rts bs)).
+  assert (H : allQ (3 * c0 + 30 + 2 * Z.of_nat (len rts)) (start fx bs false) (client_decode orc reg fx fuel rts bs)).
   { apply (allQ_client_decode orc reg fx fuel (S (len bs))); [exact Hf|lia]. }
   split.
-  - eapply all_states_imp; [|apply allQ_all_states; exact H]. intros s Hq. apply (Q_init_bounds _ _ _ _ Hq).
+  - eapply all_states_imp; [|apply allQ_all_states; exact H]. intros s Hq. apply (Q_init_bounds _ _ _ _ _ Hq).
   - intros chk. eapply allQ_no_fuel; exact H.
 Qed.
 
@@ -1052,10 +1051,10 @@ Proof. intros c bs s' [H1 H2] E. rewrite E in H2. lia. Qed.
 Definition alloc_ok (bs : bytes) (s' : st) : Prop :=
   (alloc s' <= um s' * (steps s' + excess s' + N.of_nat (len bs)))%N.
 
-Lemma R_init_alloc : forall bs smp s', R (init bs smp) s' -> alloc_ok bs s'.
+Lemma R_init_alloc : forall fx bs smp s', R (start fx bs smp) s' -> alloc_ok bs s'.
 Proof.
-  intros bs smp s' [_ [_ [_ HJ]]]. unfold alloc_ok.
-  assert (H0 : J (len bs) (init bs smp)) by (unfold J; cbn; lia).
+  intros fx bs smp s' [[_ [_ [_ HJ]]] _]. unfold alloc_ok.
+  assert (H0 : J (len bs) (start fx bs smp)) by (unfold J; cbn; lia).
   specialize (HJ (len bs) ltac:(cbn; lia) H0). unfold J, tm in HJ.
   eapply N.le_trans; [exact HJ|]. apply N.mul_le_mono_l. lia.
 Qed.
@@ -1063,14 +1062,14 @@ Qed.
 Theorem unmarshal_alloc : forall orc reg fx fuel bs smp sh,
   all_states (alloc_ok bs) (unmarshal orc reg fx fuel bs smp sh).
 Proof.
-  intros. eapply all_states_imp; [apply R_init_alloc|]. apply allR_all_states. unfold unmarshal. apply allR_dec_val.
+  intros. eapply all_states_imp; [apply (R_init_alloc fx bs smp)|]. apply allR_all_states. unfold unmarshal. apply allR_dec_val.
 Qed.
 Theorem service_alloc : forall orc reg fx fuel ms missing bs,
   all_states (alloc_ok bs) (service_decode orc reg fx fuel ms missing bs).
-Proof. intros. eapply all_states_imp; [apply (R_init_alloc bs false)|]. apply allR_all_states. apply allR_service_decode. Qed.
+Proof. intros. eapply all_states_imp; [apply (R_init_alloc fx bs false)|]. apply allR_all_states. apply allR_service_decode. Qed.
 Theorem client_alloc : forall orc reg fx fuel rts bs,
   all_states (alloc_ok bs) (client_decode orc reg fx fuel rts bs).
-Proof. intros. eapply all_states_imp; [apply (R_init_alloc bs false)|]. apply allR_all_states. apply allR_client_decode. Qed.
+Proof. intros. eapply all_states_imp; [apply (R_init_alloc fx bs false)|]. apply allR_all_states. apply allR_client_decode. Qed.
 
 (* with the step bound: linear in the input exactly when nothing announced stays undelivered *)
 Lemma alloc_linear : forall c bs s', alloc_ok bs s' -> within c bs s' -> 0 <= c ->
@@ -1079,4 +1078,42 @@ Proof.
   intros c bs s' Ha [Hs Hx] Hc. unfold alloc_ok in Ha.
   assert (H1 : Z.of_N (alloc s') <= Z.of_N (um s') * (Z.of_N (steps s') + Z.of_N (excess s') + Z.of_nat (len bs))) by nia.
   eapply Z.le_trans; [exact H1|]. apply Z.mul_le_mono_nonneg_l; [lia|]. unfold K in *. lia.
+Qed.
+
+(* ------------------------------------------------------------------ loops that stop at the first error *)
+
+(* a decoder whose element loops stop at the first error never spins: from R alone *)
+Lemma no_spin_from_start : forall fx bs smp s', fx_loop fx = true -> R (start fx bs smp) s' -> spin s' = 0%N.
+Proof. intros fx bs smp s' H [_ [_ Hs]]. rewrite Hs by exact H. reflexivity. Qed.
+
+Theorem unmarshal_no_spin : forall orc reg fx fuel bs smp sh, fx_loop fx = true ->
+  all_states (fun s' => spin s' = 0%N) (unmarshal orc reg fx fuel bs smp sh).
+Proof.
+  intros. eapply all_states_imp; [intros s Hs; eapply no_spin_from_start; eassumption|].
+  apply allR_all_states. unfold unmarshal. apply allR_dec_val.
+Qed.
+Theorem service_no_spin : forall orc reg fx fuel ms missing bs, fx_loop fx = true ->
+  all_states (fun s' => spin s' = 0%N) (service_decode orc reg fx fuel ms missing bs).
+Proof.
+  intros. eapply all_states_imp; [intros s Hs; eapply no_spin_from_start; eassumption|].
+  apply allR_all_states. apply allR_service_decode.
+Qed.
+Theorem client_no_spin : forall orc reg fx fuel rts bs, fx_loop fx = true ->
+  all_states (fun s' => spin s' = 0%N) (client_decode orc reg fx fuel rts bs).
+Proof.
+  intros. eapply all_states_imp; [intros s Hs; eapply no_spin_from_start; eassumption|].
+  apply allR_all_states. apply allR_client_decode.
+Qed.
+
+Lemma all_states_and : forall (A : Type) (P1 P2 : st -> Prop) (r : out A),
+  all_states P1 r -> all_states P2 r -> all_states (fun s => P1 s /\ P2 s) r.
+Proof. intros A P1 P2 r. induction r; cbn; auto. intros [H1 H2] [H3 H4]. split; auto. Qed.
+
+(* hence, for every input: time linear in the input *)
+Theorem unmarshal_linear_when_loops_stop : forall orc reg fx fuel bs smp sh, fx_loop fx = true -> enough fuel bs ->
+  all_states (fun s' => Z.of_N (steps s') <= K * (Z.of_nat (len bs) + 1) + 1) (unmarshal orc reg fx fuel bs smp sh).
+Proof.
+  intros orc reg fx fuel bs smp sh Hl Hf.
+  eapply all_states_imp; [|apply all_states_and; [apply unmarshal_bounds; exact Hf|apply unmarshal_no_spin; exact Hl]].
+  intros s [[H1 _] H2]. rewrite H2 in H1. cbv beta in H1. lia.
 Qed.
